@@ -933,6 +933,18 @@ static void build_variants(int base)
 
 struct h_run { int n; uint64_t a, b; struct h_frame f[LOGMAX]; };
 
+/* TS only: adds `shift' to the continuity_counter of every packet of the VBI PID.  The demultiplexer compares
+ * counters of successive packets only, so what it delivers must not depend on the absolute values.
+ * Returns 0 when the buffer is not a sequence of whole transport packets. */
+static int shift_cc(uint8_t *b, size_t n, unsigned shift)
+{
+        if (n % 188) return 0;
+        for (size_t q = 0; q < n; q += 188) if (b[q] != 0x47) return 0;
+        for (size_t q = 0; q < n; q += 188)
+                if ((((b[q + 1] & 0x1F) << 8) | b[q + 2]) == H_PID) b[q + 3] = (b[q + 3] & 0xF0) | ((b[q + 3] + shift) & 0x0F);
+        return 1;
+}
+
 /* Class of a damaged stream, from the bytes alone (d/dn = damaged stream, [lo,hi) = original bytes touched,
  * fb = last frame touched).  PES: somewhere between the start of the damaged packet and the packet of frame
  * fb+2 there is a start code 00 00 01 + stream_id >= 0xBC which is not an intact packet's and whose
@@ -1020,7 +1032,7 @@ static void damage_case(uint64_t idx, void *arg)
         int nchunks = thorough ? 7 : 2;
         uint8_t *buf = malloc(st->n + 512);
         static struct h_run whole, other;
-        uint64_t evals = 0;
+        uint64_t evals = 0, shifts = 0;
         int nlast = st->nsent - 2;        /* index of the last deliverable frame */
         static struct h_run intact; int intact_idx[LOGMAX];
         mc_case("damage base stream", "stream=%s undamaged", st->name);
@@ -1031,6 +1043,17 @@ static void damage_case(uint64_t idx, void *arg)
                 if (intact_idx[j] < 0 || (j && intact_idx[j] != intact_idx[j - 1] + 1)) h_die("base stream %s: undamaged run does not deliver the sent frames", st->name);
         }
         if (intact.n < nlast || intact_idx[intact.n - 1] != nlast) h_die("base stream %s: undamaged run delivers %d frames", st->name, intact.n);
+        uint8_t *sbuf = malloc(st->n + 512);
+        if (st->ts && idx == 0 && only_kind == 0) for (unsigned sh = 1; sh < 16; sh++) {
+                memcpy(sbuf, st->b, st->n);
+                if (!shift_cc(sbuf, st->n, sh)) h_die("base stream %s is not a sequence of transport packets", st->name);
+                mc_case("damage base stream", "stream=%s undamaged, continuity counters +%u", st->name, sh);
+                run_stream(st, sbuf, st->n, IF_FEED, 0, &other);
+                shifts++;
+                if (other.n != intact.n || other.a != intact.a || other.b != intact.b)
+                        mc_violation("undamaged TS: delivered frames depend on the absolute continuity_counter values",
+                                     "stream=%s all counters of the PID +%u: %d frames delivered, %d with the counters starting at 0", st->name, sh, other.n, intact.n);
+        }
 
         for (size_t p = idx * DMG_BLOCK; p < (idx + 1) * DMG_BLOCK && p < plimit; p++) {
                 for (int ki = only_kind; ki == only_kind; ki++) {
@@ -1110,6 +1133,22 @@ static void damage_case(uint64_t idx, void *arg)
                                          whole.n == nlast + 1 ? "count kept" : whole.n > nlast + 1 ? "extra frames" : "fewer frames");
                                 mc_outcome("%s", oc);
                         }
+                        /* TS, whole packets lost, repeated or relabelled: same damage with every absolute counter value */
+                        if (st->ts && p == st->pk[pi].lo && (k->packet_level || (k->type == K_DEL && k->a == 188))) for (unsigned sh = 1; sh < 16; sh++) {
+                                memcpy(sbuf, buf, dn);
+                                if (!shift_cc(sbuf, dn, sh)) break;
+                                mc_case(ckey, "%s fed whole, continuity counters +%u", where, sh);
+                                run_stream(st, sbuf, dn, IF_FEED, 0, &other);
+                                shifts++;
+                                if (other.n != whole.n || other.a != whole.a || other.b != whole.b) {
+                                        snprintf(key, sizeof key, "damage %s [%s]: delivered frames depend on the absolute continuity_counter values", fr, k->name);
+                                        int q = 0; while (q < other.n && q < whole.n && frame_eq(&other.f[q], &whole.f[q])) q++;
+                                        mc_violation(key, "%s: %d frames delivered, %d when all counters of the PID are shifted by %u (the packet at the damage then carries counter %u); first difference at frame %d: %s vs %s",
+                                                     where, whole.n, other.n, sh, (st->b[p + 3] + sh) & 15, q,
+                                                     q < whole.n ? frame_str(&whole.f[q]) : "(nothing)", q < other.n ? frame_str(&other.f[q]) : "(nothing)");
+                                        break;
+                                }
+                        }
                         /* same stream, other partitions and the coroutine */
                         for (int c = 1; c < nchunks; c++) {
                                 mc_case(ckey, "%s fed in %zu byte buffers", where, chunks[c]);
@@ -1143,7 +1182,8 @@ static void damage_case(uint64_t idx, void *arg)
         }
         mc_count("evaluations", evals);
         mc_count("damaged_streams", evals / (nchunks + 2));
-        free(buf);
+        if (shifts) { mc_count("evaluations", shifts); mc_count("continuity_counter_shift_runs", shifts); }
+        free(buf); free(sbuf);
 }
 
 /* ======================================================================== */
@@ -1154,7 +1194,7 @@ int main(int argc, char **argv)
         mc_set_budget(120, 1200);
         mc_meta("level", "model_checking");
         mc_meta("technique", "explicit-state search with state merging over all partitions of a stream into feed/coroutine calls on the real demultiplexer (snapshot of the flat context, dead bytes poisoned, canonical hashing); fault enumeration at every byte for the recovery clause");
-        mc_meta("rule", "(a) node = (stream position, canonical demux context, count+hash of frames delivered); one transition per node and chunk length 1..n-pos, chunk in an exactly sized heap block; a (stream, interface) search is non-trivial when its one-call run delivers >= 2 frames and is counted as distinct when all partitions agree. (b) one case per (base stream, byte position, damage kind) that changes the stream, each run whole / in small buffers / through the coroutine; distinct = distinct damaged byte streams");
+        mc_meta("rule", "(a) node = (stream position, canonical demux context, count+hash of frames delivered); one transition per node and chunk length 1..n-pos, chunk in an exactly sized heap block; a (stream, interface) search is non-trivial when its one-call run delivers >= 2 frames and is counted as distinct when all partitions agree. (b) one case per (base stream, byte position, damage kind) that changes the stream, each run whole / in small buffers / through the coroutine; distinct = distinct damaged byte streams; TS packet-level damage (repeated packet, lost packet, PES_packet_length) and the undamaged TS base streams are re-run with the continuity counters of the PID shifted by 1..15 and must deliver the same frames");
         mc_meta("assume", "streams are produced by the library's own multiplexer (vbi_dvb_mux_feed), Teletext/VPS/WSS lines with known line numbers only; CC-625 and line 0 are excluded (mux/demux line mismatch and frame separation of unknown lines belong to C06)");
         mc_meta("assume", "a frame is delivered when the first data unit of the next frame is seen, so every stream ends with one extra frame that only flushes");
         mc_meta("assume", "raw VBI (monochrome samples) output is not requested: vbi_dvb_demux has no public way to ask for it");
